@@ -168,6 +168,13 @@ def run (ctx):
       return m_ is not None and norm(m_) in ('match', 'flow_mod.match') and p_ is not None and norm(p_) in ('priority', 'flow_mod.priority') and s_ is not None and norm(s_) == 'strict'
     coll = [L_ for L_ in q.collected_lists(md) if any(p and selects(t) for t, p in L_.conds) and norm(L_.elt) == norm(L_.var)]
     coll_names = dict((L_.name, L_) for L_ in coll)
+    # the table's own selection API: X = table.matching_entries(<match>, priority=<priority>, strict=strict)
+    for t, v, st, k in q.stores_in(md.node, nested=False):
+      if isinstance(t, ast.Name) and isinstance(v, ast.Call) and call_name(v) == 'matching_entries' and norm(v.func.value) in ('table', 'self.table'):
+        m_ = kwarg(v, 'match', 0); p_ = kwarg(v, 'priority', 1); s_ = kwarg(v, 'strict', 2); o_ = kwarg(v, 'out_port', 3)
+        if m_ is not None and norm(m_) in ('match', 'flow_mod.match') and p_ is not None and norm(p_) in ('priority', 'flow_mod.priority') and s_ is not None and norm(s_) == 'strict' and (o_ is None or norm(o_) == 'None'):
+          coll_names[t.id] = q.Collected(t.id, ast.Name(id='entry', ctx=ast.Load()), ast.parse('table.entries', mode='eval').body, ast.Name(id='entry', ctx=ast.Load()), [], st, 'api', q.enclosing_stmt_node(g, st))
+    coll = list(coll_names.values())
     addc = g.nodes_with_call(lambda c: call_name(c) == '_flow_mod_add')
     acts = [st for t, v, st, k in q.stores_in(md.node) if isinstance(t, ast.Attribute) and t.attr == 'actions']
     flagnames = set()
